@@ -181,6 +181,7 @@ type fh struct {
 	monitor   int64 // scheduler resource for harness call-outs
 	stats     map[string]float64
 	nfault    int
+	burstEnd  int // number of log events when the scenario's threads had all finished (before any post phase)
 	ttlChain  bool
 	walkFail  bool              // before the Gets start somebody walks the backend and gives up at the first entry (tag "walkfail")
 	slowBuild bool              // every build lets UpdateTTL+1s of virtual time pass before it returns (tag "slow")
@@ -882,6 +883,21 @@ func (h *fh) builder(k int) func(ctx context.Context) (Tok, error) {
 			panic(builderPanic{})
 		}
 
+		// 'x': the builder fails with an error that itself looks like an "expired item" error and carries a value - as
+		// happens when a builder hands through the error of a second-level cache it consulted. It is a build failure
+		// like any other; the value it carries belongs to something else.
+		if out == 'x' {
+			te := &TokErr{K: h.names[k], N: n}
+			h.ev(FEv{Kind: "build-end", Key: k, N: n, Err: te, Nil: true, Ctx: ctxObs{Err: ctx.Err()}})
+
+			foreign := Tok{K: "second-level-cache-key", O: "x", N: n}
+			if h.cfg.Front == 2 {
+				return Tok{}, expiredLikeErrOf{TokErr: te, v: foreign}
+			}
+
+			return Tok{}, expiredLikeErr{TokErr: te, v: foreign}
+		}
+
 		if out == 'f' || out == 'p' {
 			err := &TokErr{K: h.names[k], N: n}
 			h.ev(FEv{Kind: "build-end", Key: k, N: n, Err: err, Nil: true, Ctx: ctxObs{Err: ctx.Err()}})
@@ -899,6 +915,30 @@ func (h *fh) builder(k int) func(ctx context.Context) (Tok, error) {
 		return t, nil
 	}
 }
+
+// expiredLikeErr / expiredLikeErrOf: builder errors that satisfy cache.ErrWithExpiredItem / ErrWithExpiredItemOf[Tok].
+type expiredLikeErr struct {
+	*TokErr
+	v Tok
+}
+
+func (e expiredLikeErr) Unwrap() error        { return e.TokErr }
+func (e expiredLikeErr) Value() interface{}   { return e.v }
+func (e expiredLikeErr) ExpiredAt() time.Time { return vclock.Epoch }
+
+type expiredLikeErrOf struct {
+	*TokErr
+	v Tok
+}
+
+func (e expiredLikeErrOf) Unwrap() error        { return e.TokErr }
+func (e expiredLikeErrOf) Value() Tok           { return e.v }
+func (e expiredLikeErrOf) ExpiredAt() time.Time { return vclock.Epoch }
+
+var (
+	_ cache.ErrWithExpiredItem        = expiredLikeErr{}
+	_ cache.ErrWithExpiredItemOf[Tok] = expiredLikeErrOf{}
+)
 
 type cancelDurKey struct{}
 
@@ -1089,6 +1129,7 @@ func exploreF(cfg FCfg, env *Env, opt vsched.Options, post func(h *fh), check fu
 		}
 
 		h.body()
+		h.burstEnd = len(h.log)
 
 		if post != nil {
 			post(h)
